@@ -40,6 +40,19 @@ def case_term(c):
         E.triplets(c["Tt"]), E.triplets(c["Tr"]))
 
 
+def lcase_term(c):
+    g = dict(c["grid"])
+    return "(mkLCase %s %s %s %s %d %d %s %s)" % (
+        E.griddata(g), E.spdata(c["test"]), E.spdata(c["trial"]), E.matrix(c["AD"]), c["rows"], c["cols"],
+        E.matrix(c["matrix"]), E.dyc(c["tol"]))
+
+
+def lcases_body(cases):
+    return (E.HEADER % "AssemblyA.CorrDense") + \
+        "Definition lcases : list lcase := %s.\n" % E.lst(lcase_term(c) for c in cases) + \
+        "Eval vm_compute in (failing lcase_ok lcases).\n"
+
+
 def cases_body(cases):
     return (E.HEADER % "AssemblyA.CorrDense") + \
         "Definition cases : list dcase := %s.\n" % E.lst(case_term(c) for c in cases) + \
@@ -72,8 +85,12 @@ def correspond(ctx):
     ctx.corr_cases = cases
     for e in res["errors"]:
         ctx.problem("correspondence", "harness could not build a case", json.dumps(e)[:500])
+    lcases = res.get("lcases", [])
     groups = E.chunks(cases, 13 if ctx.tier != "thorough" else 20)
-    outs = E.run_parallel(ctx, [cases_body(g) for g in groups], "c04cases", timeout=1200, workers=6)
+    lgroups = E.chunks(lcases, 16 if ctx.tier != "thorough" else 24)
+    allouts = E.run_parallel(ctx, [cases_body(g) for g in groups] + [lcases_body(g) for g in lgroups], "c04cases",
+                             timeout=1200, workers=6)
+    outs, louts = allouts[:len(groups)], allouts[len(groups):]
     ctx.note("correspondence harness + model evaluation wall %.0fs" % (time.time() - t0))
     hist = {}
     seen = set()
@@ -83,20 +100,38 @@ def correspond(ctx):
         key = json.dumps([c["spec"], c["topt"], c["ropt"]], sort_keys=True)
         if c["maxabs"] > 0 and key not in seen:
             seen.add(key)
-    ctx.corr["evaluations"] = len(cases)
-    ctx.corr["distinct_nontrivial"] = len(seen)
+    ctx.corr["evaluations"] = len(cases) + len(lcases)
+    ctx.corr["distinct_nontrivial"] = len(seen) + sum(1 for c in lcases if c["maxabs"] > 0)
     ctx.corr["histogram"] = {"space_pairs": hist,
                              "grids": {g: sum(1 for c in cases if c["spec"]["grid"] == g) for g in
                                        sorted({c["spec"]["grid"] for c in cases})},
                              "restricted_support": sum(1 for c in cases if c["topt"] or c["ropt"]),
                              "matrix_entries_compared": sum(c["rows"] * c["cols"] for c in cases),
-                             "singular_pairs": sum(len(c["sing"]) for c in cases)}
-    ctx.corr["rule"] = ("one case = the library's assemble_dense run with a polynomial surrogate kernel on one grid / test "
+                             "singular_pairs": sum(len(c["sing"]) for c in cases),
+                             "first_level_cases_per_assembler": {a: sum(1 for c in lcases if c["spec"]["assembler"] == a)
+                                                                 for a in sorted({c["spec"]["assembler"] for c in lcases})},
+                             "assembler_functions_run": sorted({f[1] for c in lcases for f in c["spec"]["functions"]}),
+                             "first_level_entries_compared": sum(c["rows"] * c["cols"] for c in lcases)}
+    ctx.corr["rule"] = ("second level: one case = the library's assemble_dense run with a polynomial surrogate kernel on one grid / test "
                         "space / trial space / quadrature orders; the model is evaluated on the library's own arrays in exact "
                         "dyadic arithmetic and every matrix entry and every non-zero of map_to_full_grid is compared inside "
                         "Coq (tolerance 1e-11*max|A|); non-trivial = the matrix has a non-zero entry; distinct = distinct "
-                        "(grid, spaces, options, kernel, orders)")
+                        "(grid, spaces, options, kernel, orders). First level: every regular+singular Numba assembler "
+                        "(default scalar, three hypersingular, two Maxwell) run through .py_func with a surrogate kernel on restricted "
+                        "spaces with non-prefix supports and non-unit multipliers on both sides and on the full element-wise spaces; the "
+                        "model scatters the full-space entries and must reproduce the restricted matrix (real and imaginary parts)")
     ctx.corr["samples"] = [describe(c) for c in cases[:6]]
+    for g, out in zip(lgroups, louts):
+        if out is None:
+            continue
+        lists = E.parse_nat_lists(out)
+        if len(lists) != 1:
+            ctx.problem("correspondence", "could not parse model evaluation output", out[-1500:])
+            continue
+        for i in lists[0]:
+            ctx.corr["disagreements"] += 1
+            ctx.problem("correspondence", "assembler %s does not scatter its local values as the congruence model does"
+                        % g[i]["spec"]["assembler"], json.dumps(g[i]["spec"]))
     for g, out in zip(groups, outs):
         if out is None:
             continue
@@ -111,19 +146,35 @@ def correspond(ctx):
 
 def search(ctx, strength):
     have = getattr(ctx, "search_result", None)
+    carried = []
     if have is not None and (have[0] == strength or have[0] == "thorough"):
         res = have[1]
     else:
-        # escalated search after a broken tie/proof in the quick tier: bounded (thorough tier: unbounded)
-        r = ctx.run_impl("c04_impl.py", {"mode": "search", "strength": strength, "families": QUICK_FAMILIES,
-                                         "budget": 1e9 if ctx.tier == "thorough" else 420}, timeout=3600)
-        if r is None:
-            return
-        res = r["search"]
+        if have is not None:
+            # escalation after a broken tie/proof: keep what the quick search of the same run already found
+            carried = list(have[1]["failures"])
+            ctx.search_info["notes"].append({"quick_search_of_this_run": {"evaluations": have[1]["evaluations"],
+                                                                         "failures": len(carried)}})
+        if carried:
+            # the quick search already exhibits failing inputs: they are the replay, no need for the long search
+            res, carried = have[1], []
+            r = {"search": res}
+        else:
+            r = None
+        if r is not None:
+            pass
+        elif True:
+            # escalated search after a broken tie/proof in the quick tier: bounded (thorough tier: unbounded)
+            r = ctx.run_impl("c04_impl.py", {"mode": "search", "strength": strength, "families": QUICK_FAMILIES,
+                                             "budget": 1e9 if ctx.tier == "thorough" else 420}, timeout=3600)
+            if r is None:
+                return
+            res = r["search"]
     ctx.search_info["evaluations"] = res["evaluations"]
     ctx.search_info["notes"].append({"operators_run": res["operators_run"], "worst_relative_error": res["worst"],
-                                     "skipped_empty_selections": res["skipped"], "wall_s": res["wall"]})
-    for f in res["failures"]:
+                                     "skipped_empty_selections": res["skipped"], "wall_s": res["wall"],
+                                     "py_func_mode": res.get("py_func_mode")})
+    for f in carried + res["failures"]:
         ctx.failure(f["signature"], f["what"], f["data"])
 
 
